@@ -137,6 +137,41 @@ theorem handleData_fault_quiet (n : Node) (src dst i j len : Nat) (d : Dev) (a :
   · rw [if_pos hc, if_pos hc, sendAbort_quiet n a.pgn src i 3 d hq hd hsrc]
   · rw [if_neg hc, if_neg hc]
 
+/-- the slot a BAM (or an RTS between other nodes) occupies: nobody is answered -/
+def bamSlot (a0 : Slot) (pgn src dst now32 size npk : Nat) : Slot :=
+  { startSlot a0 pgn src dst now32 size npk with maxPackets := 0xff }
+
+/-- **announce that is only listened to** (BAM, or RTS for another node): a slot is set up, nothing is sent -/
+theorem handleStart_listen (n : Node) (src dst pgn size npk j : Nat) (isRts : Bool) (iDev : Option Nat) (a0 : Slot)
+    (hno : (isRts && iDev.isSome) = false) (hsize : size ≤ 223)
+    (hknown : (checkKnown pgn).1 = true ∨ ¬ n.onlyKnown = true)
+    (hj : findIdx (slotHit pgn src dst true) (n.slots.map (freeSess src dst)) = some j)
+    (ha0 : (n.slots.map (freeSess src dst))[j]? = some a0) :
+    handleStart n src dst isRts iDev pgn size npk =
+      { n with slots := (n.slots.map (freeSess src dst)).set j (bamSlot a0 pgn src dst (millis32 n.s.now) size npk) } := by
+  unfold handleStart
+  simp only [findFree_hit _ _ _ _ _ _ j hj, hno]
+  have hadm : size ≤ 223 ∧ ((checkKnown pgn).1 = true ∨ ¬ n.onlyKnown = true) := ⟨hsize, hknown⟩
+  rw [if_pos hadm]
+  simp [Node.setSlot, ha0, bamSlot]
+
+/-- data packets of a session nobody is answered in (`TPRequireCTS = 0`): no frame is ever sent -/
+theorem handleData_silent (n : Node) (src dst j len : Nat) (a : Slot) (buf : List Nat)
+    (hj : findIdx (sessOf src dst) n.slots = some j) (ha : n.slots[j]? = some a) (hreq : a.reqCTS = 0) :
+    handleData n src dst len buf =
+      if a.lastFrame + 1 = buf.getD 0 0 then
+        (n.setSlot j { a with data := copyBuf a.data 1 len buf, lastFrame := buf.getD 0 0, msgTime := millis32 n.s.now },
+         if (copyBuf a.data 1 len buf).length ≥ a.dataLen then some j else none)
+      else (n.setSlot j (freeMessage a), none) := by
+  unfold handleData
+  simp only [hj, ha, hreq, Nat.lt_irrefl, false_and, ↓reduceIte]
+  by_cases hs : a.lastFrame + 1 = buf.getD 0 0
+  · rw [if_pos hs, if_pos hs]
+    by_cases hdone : (copyBuf a.data 1 len buf).length ≥ a.dataLen
+    · simp [hdone]
+    · simp [hdone]
+  · rw [if_neg hs, if_neg hs]
+
 /-- a TP.DT frame from `src` to `dst` with the 8 bytes `buf` -/
 def dtIn (src dst : Nat) (buf : List Nat) : Frame := ⟨n2kToCanId 6 60160 src dst, 8, buf⟩
 /-- a TP.CM frame from `src` to `dst` -/
